@@ -109,7 +109,7 @@ def stepLine (st : DS) (line : String) : DS × String :=
     | some e, some n, some op => ({ st with ghost := ghostStep st.ghost op e n }, "")
     | _, _, _ => (st, "bad-mon")
   | "mondump" :: rest =>
-    match parseDump rest with
+    match parseDump ("dump" :: rest) with
     | some d =>
       match judge st.ghost d with
       | .bad why => (st, "BAD " ++ why)
